@@ -90,9 +90,9 @@ void harness(void)
             const char *m1 = eav_errstr(&e);
             long a1 = cb_strerror_arg;
             const char *m2 = eav_errstr(&f);
-            VF_ASSERT(m1 == m2 || (CB_IS_IDN_MESSAGE(m1) && CB_IS_IDN_MESSAGE(m2)), "C13: message equals a fresh object's");
+            VF_ASSERT(m1 == m2 || (CB_IS_IDN_MESSAGE(m1) && cb_same_text(m1, m2)), "C13: message equals a fresh object's");
             if (e.errcode == EEAV_IDN_ERROR) {
-                VF_ASSERT(CB_IS_IDN_MESSAGE(m1) && a1 == e.result->idn_rc, "C19: IDN failure reports the library message for its code");
+                VF_ASSERT(CB_IS_IDN_MESSAGE_FOR(m1, e.result->idn_rc) && a1 == e.result->idn_rc, "C19: IDN failure reports the library message for its code");
                 VF_ASSERT(ret == 0, "C19: an IDN failure is a rejection");
                 VF_COVER(emails >= 2, "idn-fault-after-earlier-validation");
             }
@@ -104,7 +104,7 @@ void harness(void)
         case OP_ERRSTR: {
             const char *m = eav_errstr(&e);
             if (exp_err == EEAV_IDN_ERROR)
-                VF_ASSERT(CB_IS_IDN_MESSAGE(m), "C13: eav_errstr still describes the most recent validation (IDN message)");
+                VF_ASSERT(CB_IS_IDN_MESSAGE_FOR(m, exp_idn), "C13: eav_errstr still describes the most recent validation (IDN message of its code)");
             else
                 VF_ASSERT(CB_SAME_MSG(m, cb_msg_of(exp_err)), "C13: eav_errstr describes the most recent validation / failed setup");
         } break;
